@@ -13,10 +13,58 @@ def prepare(prog):
     are returned with the verdict, `yield e` becomes `emitted.append(e)` (see pyvc/extract.py)"""
     import ast
     from pyvc.extract import extract_loop_body
+    try:
+        prepare_ticks(prog)
+    except KeyError:
+        pass        # run_ticks is then reported as unreachable on its own
     return extract_loop_body(prog, f"{MC}:CSVWorkloadReader.batch_by_arrival", "group_arrival",
                              lambda n: ast.unparse(n.target) == "pipeline_arrival" and "batch_by_pipeline" in ast.unparse(n.iter),
                              ["self", "pipeline_arrival", "current_batch", "current_arrival_seconds", "emitted"],
                              outs=["current_batch", "current_arrival_seconds"], yields_to="emitted")
+
+
+def prepare_ticks(prog):
+    """`max_ticks = int(params["duration"] * params["ticks_per_second"])` of run_simulator as run_ticks(params)"""
+    import ast
+    from pyvc.extract import extract_block
+    is_start = lambda s: isinstance(s, ast.Assign) and ast.unparse(s.targets[0]) == "max_ticks"
+    seen = []
+    def one(s):
+        seen.append(s)
+        return len(seen) == 1
+    q = extract_block(prog, "eudoxia.simulator:run_simulator", "run_ticks", is_start, one, ["params"], "max_ticks")
+    # the arrival time gentrace writes for the pipelines of one tick: the assignment(s) to arrival_seconds at the head of the tick loop
+    is_arr = lambda s: isinstance(s, (ast.Assign, ast.AugAssign)) and "arrival_seconds" in [ast.unparse(t) for t in (s.targets if isinstance(s, ast.Assign) else [s.target])]
+    try:
+        extract_block(prog, f"{MC}:WorkloadTraceGenerator.generate_rows", "gen_arrival", is_arr, is_arr, ["self", "tick"], "arrival_seconds")
+    except KeyError:
+        pass
+    return q
+
+
+def declare2(S: Spec):
+    """`run` and `gentrace` cover the same ticks (C13: a generated trace replays what the generator produced, up to the run's end):
+    both compute floor(duration x ticks_per_second), and the trace generator's tick length is 1 / ticks_per_second"""
+    S.cls("Workload", {})
+    S.cls("WorkloadTraceGenerator", {"workload": Ref("Workload"), "ticks_per_second": INT, "tick_length_secs": REAL, "max_ticks": INT})
+    S.fn(f"{MC}:WorkloadTraceGenerator.__init__", owners=["C13"],
+         params={"workload": Ref("Workload"), "ticks_per_second": INT, "duration_secs": REAL},
+         requires=["ticks_per_second >= 1", "duration_secs >= 0"],
+         ensures=[("gentrace-covers-the-ticks-of-the-run", "self.max_ticks == floor(rmul(duration_secs, ticks_per_second))"),
+                  ("tick-length", "self.tick_length_secs == rdiv(1.0, ticks_per_second)"),
+                  ("tick-rate-kept", "self.ticks_per_second == ticks_per_second and self.workload is workload")],
+         modifies=["self.workload", "self.ticks_per_second", "self.tick_length_secs", "self.max_ticks"],
+         note="real arithmetic (A-REAL); the float behaviour of tick x tick_length is the bounded gentrace round trip")
+    S.fn(f"{MC}:gen_arrival", owners=["C13"], params={"self": Ref("WorkloadTraceGenerator"), "tick": INT}, returns=REAL,
+         requires=["self is not None and self.ticks_per_second >= 1 and self.tick_length_secs == rdiv(1.0, self.ticks_per_second)", "tick >= 0"],
+         ensures=[("written-arrival-is-the-start-of-the-generating-tick", "result == rdiv(tick, self.ticks_per_second)")],
+         modifies=[], note="extracted from generate_rows: the arrival time written for the pipelines of tick `tick` (real arithmetic; "
+                           "that tick x (1/tps) maps back to `tick` in floating point is the bounded grid, finding D4)")
+    S.fn("eudoxia.simulator:run_ticks", owners=["C13"], params={"params": Dict(STR, REAL)}, returns=INT,
+         requires=["params is not None and 'duration' in params and 'ticks_per_second' in params",
+                   "params['duration'] >= 0 and params['ticks_per_second'] >= 1"],
+         ensures=[("the-run-covers-floor-of-duration-times-rate", "result == floor(rmul(params['duration'], params['ticks_per_second']))")],
+         modifies=[], note="extracted from run_simulator: the assignment of max_ticks")
 
 
 def declare3(S: Spec):
